@@ -2,6 +2,7 @@ package main
 
 import (
 	"fmt"
+	"strings"
 	"go/token"
 	"go/types"
 
@@ -313,6 +314,7 @@ func (ex *executor) loopBack(n *node, st *state) {
 		t := ex.evalBoolClause(inv, st, ex.root().entry, nil)
 		ex.addObligation(st, "inv-preserved", fmt.Sprintf("loop %d %s", li.index, clauseLabel(inv, i)), Implies(st.pc, t), li.pos)
 	}
+	ex.loopFrameObligation(li, st)
 	if lc.Decreases != nil {
 		old, ok := ex.env[envKey{n.ctx, decKey{li}}]
 		if ok {
@@ -326,6 +328,44 @@ func (ex *executor) loopBack(n *node, st *state) {
 			ex.addObligation(st, "decreases", fmt.Sprintf("loop %d", li.index), Implies(st.pc, goal), li.pos)
 		}
 	}
+}
+
+type loopFrame struct {
+	allowed func(name string, key []*Term) *Term
+	head    map[string]*Heap
+	epochs  []epochAlt
+}
+
+// loopFrameObligation: at the back edge, everything outside the loop's assigns clause
+// still has the value it had at the loop head.
+func (ex *executor) loopFrameObligation(li *loopInfo, st *state) {
+	lf := ex.loopFrames[li]
+	if lf == nil {
+		return
+	}
+	if !epochsEqual(st.epochs, lf.epochs) {
+		ex.addObligation(st, "loop-frame", fmt.Sprintf("loop %d no unframed call", li.index), Not(st.pc), li.pos)
+		return
+	}
+	var goals []*Term
+	for name, h := range st.heaps {
+		cls := ex.eng.classes[name]
+		h0, ok := lf.head[name]
+		if !ok {
+			// class first touched inside the loop: its head value is the (unhavocked) base
+			hs := &state{heaps: map[string]*Heap{}, epochs: lf.epochs}
+			h0 = ex.heapOf(hs, cls)
+		}
+		if h0 == h {
+			continue
+		}
+		key := make([]*Term, len(cls.Key))
+		for i, s := range cls.Key {
+			key[i] = FreshVar("lfk", s)
+		}
+		goals = append(goals, Implies(Not(lf.allowed(name, key)), Eq(h.Read(key), h0.Read(key))))
+	}
+	ex.addObligation(st, "loop-frame", fmt.Sprintf("loop %d assigns", li.index), Implies(st.pc, And(goals...)), li.pos)
 }
 
 func clauseLabel(c *Clause, i int) string {
@@ -385,16 +425,59 @@ func (ex *executor) havocLoop(li *loopInfo, st *state) {
 		ex.havocAll(st, fmt.Sprintf("loop %d body contains a call without frame", li.index))
 		return
 	}
+	// loop frame (optional): restrict the havoc to the declared locations
+	var allowed func(name string, key []*Term) *Term
+	if li.lc.HasAssigns {
+		env := ex.mkEnv(nil, st, ex.root().entry, nil)
+		freshOK := false
+		var locs []*locRef
+		for _, a := range li.lc.Assigns {
+			if strings.TrimSpace(a.Text) == "fresh" {
+				freshOK = true
+				continue
+			}
+			locs = append(locs, ex.evalLoc(a, env)...)
+		}
+		alloc0 := ex.root().entry.alloc
+		allowed = func(name string, key []*Term) *Term {
+			var alts []*Term
+			for _, l := range locs {
+				alts = append(alts, l.covers(name, key))
+			}
+			if freshOK && len(key) > 0 && key[0].sort.K == SInt && (strings.HasPrefix(name, "P:") || strings.HasPrefix(name, "E:") || strings.HasPrefix(name, "M:")) {
+				alts = append(alts, ILe(alloc0, key[0]))
+			}
+			return Or(alts...)
+		}
+	}
 	tag := ex.fresh("lp")
+	head := map[string]*Heap{}
 	for cn := range classes {
 		cls := ex.eng.classes[cn]
 		if cls == nil {
 			continue
 		}
 		h := ex.heapOf(st, cls)
-		nh := h.Havoc(tag, nil)
+		var nh *Heap
+		if allowed != nil {
+			name := cn
+			nh = h.Havoc(tag, func(key []*Term) *Term { return allowed(name, key) })
+		} else {
+			nh = h.Havoc(tag, nil)
+		}
 		nh.bound = na
 		st.heaps[cn] = nh
+		head[cn] = nh
+	}
+	if allowed != nil {
+		if ex.loopFrames == nil {
+			ex.loopFrames = map[*loopInfo]*loopFrame{}
+		}
+		snapshot := map[string]*Heap{}
+		for k, v := range st.heaps {
+			snapshot[k] = v
+		}
+		ex.loopFrames[li] = &loopFrame{allowed: allowed, head: snapshot, epochs: append([]epochAlt{}, st.epochs...)}
 	}
 	st.alloc = na
 }
